@@ -8,6 +8,8 @@ package model
 //   cmdValue(c)   : that field's value (the first one), as an interface value
 //   cmdHasFct(c)  : its fct tag is non-empty
 //   cmdFct(c)     : the function named by that tag
+// cmdKey: an (injective) numbering of command values, used to log commands in ghost traces without comparing the 147-field record
+//@ spec cmdKey(c CmdType) int
 //@ spec cmdHasData(c CmdType) bool
 //@ spec cmdValue(c CmdType) any
 //@ spec cmdHasFct(c CmdType) bool
